@@ -17,6 +17,8 @@ structure DState where
   logSeen : Nat := 0
   /-- the index parked between its name insert and its pid insert -/
   win : Option Nat := none
+  /-- thread-local actors (the harness never subscribes them as listeners) -/
+  tl : List Nat := []
   -- what the implementation itself said so far (for the clauses)
   implNames : String := "-"
   implSpawned : List String := []          -- indices whose constructor reached the pid table (res ok / start)
@@ -54,16 +56,19 @@ def apply (st : DState) (ws : List String) : DState × String :=
       let i := i.toNat?.getD 0
       let (s1, going) := construct st.s i (parseName nm)
       if going then ({ st with s := s1, win := some i }, "win") else ({ st with s := s1 }, "dup")
-    else if kind == "spawn" || kind == "spawnfail" then
+    else if kind == "spawn" || kind == "spawnfail" || kind == "spawntl" || kind == "spawntlfail" then
       let i := i.toNat?.getD 0
       let (s1, going) := construct st.s i (parseName nm)
       if !going then ({ st with s := s1 }, "dup")
       else
         let s2 := runOps s1 [.regPid i, .publish i 1]
         if kind == "spawn" then ({ st with s := runOps s2 [.publish i 2], shown := st.shown ++ [i] }, "ok")
+        else if kind == "spawntl" then
+          ({ st with s := runOps s2 [.publish i 2], shown := st.shown ++ [i], tl := st.tl ++ [i] }, "ok")
         else ({ st with s := runOps s2 (exitOps i) }, "start")
     else (st, "bad-op")
-  | ["collide", i, nm, j] =>
+  | [ckind, i, nm, j] =>
+    if ckind != "collide" && ckind != "collidetl" then (st, "bad-op") else
     let i := i.toNat?.getD 0
     let j := j.toNat?.getD 0
     if !(st.shown.contains j && alive st.s j) then (st, "skip")
@@ -86,7 +91,8 @@ def apply (st : DState) (ws : List String) : DState × String :=
     ({ st with s := runOps s1 [.regPid i, .publish i 1, .publish i 2], shown := st.shown ++ [i] }, "ok")
   | ["monitor", i] =>
     let i := i.toNat?.getD 0
-    if st.shown.contains i && alive st.s i then ({ st with s := runOps st.s [.monitor i] }, "unit") else (st, "skip")
+    if st.shown.contains i && alive st.s i && !st.tl.contains i then ({ st with s := runOps st.s [.monitor i] }, "unit")
+    else (st, "skip")
   | ["demonitor", i] =>
     let i := i.toNat?.getD 0
     if st.shown.contains i then ({ st with s := runOps st.s [.demonitor i] }, "unit") else (st, "unit")
@@ -131,7 +137,9 @@ def parseEv (w : String) : Option (String × Bool × String) :=
 def oracle (st : DState) (ws : List String) (impl : String) : List String × DState :=
   let res := field impl "res"
   let names := field impl "names"
-  let isCons := match ws with | k :: _ => k == "spawn" || k == "spawnfail" || k == "collide" || k == "wina" | _ => false
+  let isCons := match ws with
+    | k :: _ => k == "spawn" || k == "spawnfail" || k == "collide" || k == "wina" || k == "spawntl" || k == "spawntlfail" || k == "collidetl"
+    | _ => false
   let idx := (ws.drop 1).headD "?"
   let spawned := if isCons && (res == "ok" || res == "start") || ws.head? == some "mon" || (ws.head? == some "winb" && res == "ok")
                  then st.implSpawned ++ [idx] else st.implSpawned
